@@ -10,7 +10,7 @@ RULE = ('scenarios = source kind x boundary sizes x (threshold, chunksize) x sma
         'checksum mode x endpoint scheme x forced client-level retries with partial body consumption x gated part '
         'completion orders, run through the real TransferManager against the wire-level fake S3; scaled family '
         '(minimum part size patched to the chunk size) plus a real-constant family (5 MiB parts); a case is '
-        'non-trivial when the future reported success and the content oracle compared object bytes and the '
+        'also: stream flavours (declared / duck-typed seekable; bare / declared / raising-seek non-seekable), short-reading seekable sources below the threshold, NonThreadedExecutor and subscriber flavours, concurrent calls on one legacy S3Transfer, line windows over the legacy uploader, sequential histories on one manager; non-trivial when the future reported success and the content oracle compared object bytes and the '
         'multipart log; distinct = distinct (scenario shape, cross-thread interleaving signature)')
 ASSUMPTIONS = [
     'fake S3 mirrors S3 semantics the library depends on (ETag/checksum validation at complete, NoSuchUpload after abort)',
